@@ -7,6 +7,8 @@ import (
 	"math/rand"
 	"testing"
 
+	"github.com/tokenized/pkg/wire"
+
 	"github.com/tokenized/pkg/bitcoin"
 	"github.com/tokenized/spynode/internal/verifkit"
 )
@@ -27,6 +29,10 @@ func (s c01Step) String() string {
 		return fmt.Sprintf("reorg(depth=%d,len=%d)", s.D, s.N)
 	case "partial":
 		return fmt.Sprintf("partial(%d)", s.N)
+	case "revive":
+		return fmt.Sprintf("revive(+%d)", s.N)
+	case "race":
+		return fmt.Sprintf("race(depth=%d,len=%d)", s.D, s.N)
 	}
 	return s.Op
 }
@@ -75,6 +81,17 @@ func c01Generate(r *rand.Rand, long bool) c01Scenario {
 	}
 	for i := 0; i < nsteps; i++ {
 		switch k := r.Intn(100); {
+		case k < 8:
+			// a new tip is requested but its body has not arrived when the peer replaces it
+			sc.Steps = append(sc.Steps, c01Step{Op: "settle"}, c01Step{Op: "race", D: 1 + r.Intn(2), N: 1 + r.Intn(3)}, c01Step{Op: "settle"})
+		case k < 12:
+			// tip race: new blocks are announced, and before their bodies have all been
+			// processed the peer switches to a competing branch
+			sc.Steps = append(sc.Steps, c01Step{Op: "settle"}, c01Step{Op: "extend", N: 1 + r.Intn(3)},
+				c01Step{Op: "partial", N: 1 + r.Intn(6)}, c01Step{Op: "reorg", D: 1 + r.Intn(4), N: 1 + r.Intn(3)})
+		case k < 20:
+			// back to an abandoned branch that has grown longer
+			sc.Steps = append(sc.Steps, c01Step{Op: "revive", N: 1 + r.Intn(3)})
 		case k < 30:
 			sc.Steps = append(sc.Steps, c01Step{Op: "extend", N: 1 + r.Intn(12)})
 		case k < 60:
@@ -98,6 +115,11 @@ func c01Generate(r *rand.Rand, long bool) c01Scenario {
 
 // c01Run executes a scenario and returns the simulation (with its findings).
 func c01Run(r *rand.Rand, sc c01Scenario, probeEvery bool) (*dsSim, error) {
+	return c01RunHook(r, sc, probeEvery, nil)
+}
+
+// c01RunHook: setup is called whenever a (new) node has been created for the scenario.
+func c01RunHook(r *rand.Rand, sc c01Scenario, probeEvery bool, setup func(*dsSim)) (*dsSim, error) {
 	tree := verifkit.NewTree()
 	tip := tree.ExtendN(tree.Genesis, sc.Initial)
 	// the start block may not be mined yet: pre-build the future of the chain
@@ -117,8 +139,12 @@ func c01Run(r *rand.Rand, sc c01Scenario, probeEvery bool) (*dsSim, error) {
 	pol := sc.Pol
 	pol.probeEvery = probeEvery
 	s := newDSSim(e, peer, r, pol)
+	if setup != nil {
+		setup(s)
+	}
 	s.connect()
 	pendingFuture := future
+	var abandoned []*verifkit.Block
 	for _, st := range sc.Steps {
 		if s.crashed {
 			break
@@ -143,7 +169,43 @@ func c01Run(r *rand.Rand, sc c01Scenario, probeEvery bool) (*dsSim, error) {
 			for i := 0; i < d+st.N-1+1; i++ { // new branch at least as long as the old one
 				nt = tree.Extend(nt, nil)
 			}
+			abandoned = append(abandoned, peer.tip)
 			peer.tip = nt
+			s.chainChanged()
+		case "race":
+			// extend by one block, stop as soon as the node has asked for it, then reorganise
+			nb := tree.Extend(peer.tip, nil)
+			peer.tip = nb
+			s.pumpUntil(400, func() bool { return peer.gotGetData[nb.Hash] > 0 })
+			d := st.D
+			if d > peer.tip.Height {
+				d = peer.tip.Height
+			}
+			base := peer.tip.Ancestor(peer.tip.Height - d)
+			nt := base
+			for i := 0; i < d+st.N; i++ {
+				nt = tree.Extend(nt, nil)
+			}
+			abandoned = append(abandoned, peer.tip)
+			peer.tip = nt
+			s.chainChanged()
+			// the peer is slow to serve the requested block: its announcement of the new
+			// branch overtakes the block reply
+			if a := peer.announce(); len(a) > 0 {
+				s.inbox = append(append([]wire.Message(nil), a...), s.inbox...)
+			}
+		case "revive":
+			if len(abandoned) == 0 {
+				break
+			}
+			old := abandoned[r.Intn(len(abandoned))]
+			nt := old
+			for nt.Height < peer.tip.Height+st.N {
+				nt = tree.Extend(nt, nil)
+			}
+			abandoned = append(abandoned, peer.tip)
+			peer.tip = nt
+			s.chainChanged()
 		case "settle":
 			s.settle(lastChange(sc.Steps, st))
 		case "partial":
@@ -164,6 +226,9 @@ func c01Run(r *rand.Rand, sc c01Scenario, probeEvery bool) (*dsSim, error) {
 			}
 			s.e = e2
 			s.hookLog()
+			if setup != nil {
+				setup(s)
+			}
 			s.connect()
 		case "drop":
 			s.reconnect()
@@ -190,7 +255,7 @@ func c01Fingerprint(sc c01Scenario) string {
 
 func c01NonTrivial(sc c01Scenario) bool {
 	for _, st := range sc.Steps {
-		if st.Op == "reorg" || st.Op == "restart" || st.Op == "drop" {
+		if st.Op == "reorg" || st.Op == "restart" || st.Op == "drop" || st.Op == "revive" || st.Op == "race" {
 			return true
 		}
 	}
